@@ -1201,7 +1201,21 @@ class Engine:
 
     def _comp(self, node, st, kind):
         if len(node.generators) != 1:
-            raise Unsupported("nested comprehension")
+            # [E for g1 for g2 ...] == the concatenation of [[E for g2 ...] for g1]
+            inner = ast.ListComp(elt=node.elt, generators=node.generators[1:])
+            outer = ast.ListComp(elt=inner, generators=node.generators[:1])
+            ast.copy_location(inner, node)
+            ast.copy_location(outer, node)
+            res = []
+            for v, s in self._comp(outer, st, kind):
+                if isinstance(v, Raise):
+                    res.append((v, s))
+                    continue
+                flat = []
+                for sub in s.heap[v.oid].items:
+                    flat.extend(s.heap[sub.oid].items)
+                res.append((s.alloc(HList(flat)), s))
+            return res
         g = node.generators[0]
 
         def after_iter(it, s):
